@@ -54,7 +54,9 @@ Definition lcase_ok (l : lcase) : bool :=
 Record ccase := mkClosing { cearly : bool; creturned : bool; cunack : N }.
 Definition ccase_ok (c : ccase) : bool := negb (cearly c) && creturned c && (cunack c =? 1)%N.
 
-(* a client that has stopped reading, so that the broker's writer is blocked in its Write, and then (kind 0) another
+(* kind 3: a SLOW reader with a backlog on its way is taken over: answered, and the old connection decodes everything it was
+   sent, a DISCONNECT "session taken over" last.
+   a client that has stopped reading, so that the broker's writer is blocked in its Write, and then (kind 0) another
    connection takes the client id over, (1) the broker is stopped, (2) the keep-alive runs out: the CONNECT must be
    answered / Stop must return / the Will must be published, and the stalled connection must be closed *)
 Inductive special := SLis (l : lcase) | SClosing (c : ccase) | SStalled (kind : N) (ok closed : bool).
